@@ -3477,10 +3477,14 @@ class SEVM:
                                 "is assumed to have empty bytecode"
                             )
 
-                        account_code: Contract | ByteVec = (
-                            ex.code.get(account_alias) or ByteVec()
+                        account_code: Contract | None = ex.code.get(account_alias)
+                        # an account without code reads as `size` zero bytes
+                        # (note: ByteVec.slice takes (start, stop), Contract.slice (start, size))
+                        codeslice: ByteVec = (
+                            account_code.slice(offset, size)
+                            if account_code is not None
+                            else ByteVec().slice(offset, offset + size)
                         )
-                        codeslice: ByteVec = account_code.slice(offset, size)
                         state.set_mslice(loc, codeslice)
 
                 elif opcode == OP_EXTCODEHASH:
